@@ -84,9 +84,18 @@ let () = run_lines (fun toks ->
     trace string_of_z (Model.x_ru_seqd (nat_of_int (int_of_string k - 6)) (b hx) (z_of_string old) (nat_s n) (chars_of_hex h)) h
   | ["ri.seqd"; k; hx; old; n; h] ->
     trace string_of_z (Model.x_ri_seqd (nat_of_int (int_of_string k - 6)) (b hx) (z_of_string old) (nat_s n) (chars_of_hex h)) h
-  | ["poly.seqd"; bal; p; old; n; h] ->
-    trace string_of_zlist (Model.x_poly_seqd (b bal) (z_of_string p) (zlist_of_string old) (nat_s n) (chars_of_hex h)) h
-  | ["poly.wr"; var; bal; p; cs; old] ->
-    let (t, (((cs2, r), e), f)) = Model.x_poly_wr (chars_of_hex var) (b bal) (z_of_string p) (zlist_of_string cs) (zlist_of_string old) in
+  | ["poly.seqd"; bal; word; lo; hi; p; old; n; h] ->
+    trace string_of_zlist (Model.x_poly_seqd (b bal) (b word) (z_of_string lo) (z_of_string hi) (z_of_string p) (zlist_of_string old) (nat_s n) (chars_of_hex h)) h
+  | ["poly.seqd0"; bal; word; lo; hi; p; old; n; h] ->       (* unrepaired body: the trace up to the first undefined read, then UB *)
+    let (t, u) = Model.x_poly_seqd0 (b bal) (b word) (z_of_string lo) (z_of_string hi) (z_of_string p) (zlist_of_string old) (nat_s n) (chars_of_hex h) in
+    let toks = List.map (fun (((v, r), e), f) -> string_of_zlist v ^ ":" ^ fl e f ^ ":" ^ nx r) t in
+    if u then String.concat " " (toks @ ["UB"])
+    else String.concat " " (toks @ [match List.rev t with [] -> h | (((_, r), _), _) :: _ -> hex_of_chars r])
+  | ["poly.wr"; var; bal; word; lo; hi; p; cs; old] ->
+    let (t, (((cs2, r), e), f)) = Model.x_poly_wr (chars_of_hex var) (b bal) (b word) (z_of_string lo) (z_of_string hi) (z_of_string p) (zlist_of_string cs) (zlist_of_string old) in
     hex_of_chars t ^ " " ^ string_of_zlist cs2 ^ " " ^ hex_of_chars r ^ " " ^ fl e f
+  | ["poly.wr0"; var; bal; word; lo; hi; p; cs; old] ->
+    (match Model.x_poly_wr0 (chars_of_hex var) (b bal) (b word) (z_of_string lo) (z_of_string hi) (z_of_string p) (zlist_of_string cs) (zlist_of_string old) with
+     | (t, Some (((cs2, r), e), f)) -> hex_of_chars t ^ " " ^ string_of_zlist cs2 ^ " " ^ hex_of_chars r ^ " " ^ fl e f
+     | (t, None) -> hex_of_chars t ^ " UB")
   | _ -> "BAD-LINE")
